@@ -1,6 +1,45 @@
-(** C02 — placeholder: the codec theorems shared by the assembler properties are in Asm.v / props/C02.v. *)
-From Coq Require Import ZArith Lia.
+(** C02 — x86 assembler candidates encode exactly the requested instruction.  Property theorems only.
+    Proved here: the two places where a candidate's numbers and address bytes are produced.
+    (1) check_imm_size (model Asm.v, tied to ia32_arch.check_imm_size by exact-output correspondence) offers a form only for a
+        value the form represents, never changes the value modulo the field width, never changes it modulo 2^32 for the
+        sign-extended and full-width forms, and excludes the form when the value is out of range;
+    (2) every (ModRM, SIB) pair the assembler's reverse table fd_afs (regenerated from the working tree on every run) offers for
+        an address form has an empty reg field and decodes, through the decode tables of the disassembler (regenerated too;
+        proved to agree with the SDM forms in C01), to exactly that address form.
+    NOT proved: the text parsers and the row selection of asm_candidates; for them every candidate of every generated line is
+    validated against GNU objdump / GNU as (harness/p_c02.py). *)
+From Coq Require Import ZArith List Bool String.
+From Mx Require Import X86Types Asm AsmProofs AsmFacts.
+From MxGen Require Import X86Tables AsmTables.
+Import ListNotations.
 Open Scope Z_scope.
-Theorem C02_placeholder : forall v : Z, v mod 256 = v mod 256.
-Proof. reflexivity. Qed.
-Print Assumptions C02_placeholder.
+
+Theorem C02_imm_form_represents_value : forall v is16 k r,
+  check_imm_size v is16 k = Some r -> in_range k r /\ r mod 2 ^ bits k = v mod 2 ^ bits k.
+Proof. exact check_imm_fits. Qed.
+Print Assumptions C02_imm_form_represents_value.
+
+Theorem C02_imm_no_sign_change : forall v k r, k <> U08 -> check_imm_size v false k = Some r -> r mod 2 ^ 32 = v mod 2 ^ 32.
+Proof. exact check_imm_no_sign_change. Qed.
+Print Assumptions C02_imm_no_sign_change.
+
+Theorem C02_imm_unsigned_byte : forall v is16 r, check_imm_size v is16 U08 = Some r -> -128 <= v < 256 /\ (0 <= v -> r = v) /\ (v < 0 -> r = v + 256).
+Proof. exact check_imm_u08. Qed.
+Print Assumptions C02_imm_unsigned_byte.
+
+Theorem C02_imm_unfit_value_excludes_form : forall v,
+  (v < -128 \/ 256 <= v -> check_imm_size v false U08 = None) /\ (v < 0 \/ 65536 <= v -> check_imm_size v false U16 = None) /\
+  (v < - 2 ^ 32 \/ 2 ^ 32 <= v -> check_imm_size v false U32 = None) /\ (128 <= v < 2 ^ 32 - 128 -> check_imm_size v false S08 = None).
+Proof. exact check_imm_excludes. Qed.
+Print Assumptions C02_imm_unfit_value_excludes_form.
+
+Theorem C02_modrm_synthesis_sound : forall key has_txt l m s, In (key, has_txt, l) fd_afs -> In (m, s) l ->
+  0 <= m < 256 /\ Z.land m 56 = 0 /\
+  exists a, decode_ms x86_tables (key_table x86_tables key) m s = Some a /\ afs_key_eqb a key = true /\ (has_txt = true -> af_txt a = af_txt key).
+Proof. exact fd_afs_entry_sound. Qed.
+Print Assumptions C02_modrm_synthesis_sound.
+
+(** non-vacuity: -1 is offered as a sign-extended byte, 255 is not; eax+ecx*4+disp8 has a ModRM/SIB pair *)
+Example C02_nonvacuous : check_imm_size (-1) false S08 = Some (-1) /\ check_imm_size 255 false S08 = None /\ check_imm_size 255 false U08 = Some 255 /\
+  existsb (fun row : fd_row => let '(key, _, l) := row in afs_key_eqb key (mkafs true (Some 1) [(0, 1); (1, 4)] "") && negb (match l with [] => true | _ => false end)) fd_afs = true.
+Proof. vm_compute. repeat split; reflexivity. Qed.
